@@ -13,9 +13,85 @@ on values, the spill paths of the inline buffers — all functions of unbounded 
 from .. import facts, mir, sites, pathclosure, window, pathmut
 from ..symex import sym, Aff
 from ..igraph import IGraph
+from .. import terms
 
 RI = ['uri::Uri', 'uri::reference::UriRef', 'iri::Iri', 'iri::reference::IriRef']
 PATHS = ['uri::path::Path', 'iri::path::Path']
+
+
+def join_loop(run, P):
+    """in-place normalize writes  shield ++ join(normalized_segments, "/"):  one iteration of its collecting loop appends "/" exactly when
+    the enumeration index is > 0 and then exactly the bytes of THAT segment — on every CFG path of one iteration"""
+    from ..symex import loop_info
+    fn = pathmut.PRE + 'normalize'
+    b = P.body(fn)
+    if b is None:
+        run.violation('join|anchor', f'{fn} not found')
+        return
+    loops = loop_info(b)
+    if len(loops) != 1:
+        run.violation('join|loop', f'{P.where(b)} {fn}: {len(loops)} loops (1 expected: the loop that joins the normalised segments)')
+        return
+    header = next(iter(loops))
+    blocks = loops[header][0]
+    T = terms.Terms(b)
+    # the iterator must be normalized_segments(..).enumerate()
+    calls = [mir.callee(t) or '' for _, t in P.calls(b)]
+    if not any(c.endswith('::normalized_segments') for c in calls) or not any(c.endswith('Iterator::enumerate') for c in calls):
+        run.violation('join|iter', f'{P.where(b)} {fn}: the joining loop does not run over normalized_segments().enumerate()')
+        return
+    gt_locals = {}
+    for bi in blocks:
+        for st in b['blocks'][bi]['stmts']:
+            if st['k'] == 'assign' and st['rv']['k'] == 'binop' and st['rv']['op'] in ('Gt', 'Ne') and st['rv']['b']['k'] == 'const' and st['rv']['b'].get('val') == 0:
+                gt_locals[st['place']['local']] = True
+            elif st['k'] == 'assign' and st['rv']['k'] == 'binop' and st['rv']['op'] in ('Eq',) and st['rv']['b']['k'] == 'const' and st['rv']['b'].get('val') == 0:
+                gt_locals[st['place']['local']] = False
+    npaths = 0
+    stack = [(header, (header,), None)]
+    first = True
+    while stack:
+        bb, path, pos = stack.pop()
+        if bb == header and not first:
+            npaths += 1
+            acts = []
+            for bi in path[:-1]:
+                t = b['blocks'][bi]['term']
+                if t['k'] != 'call':
+                    continue
+                c = mir.callee(t) or ''
+                if c.endswith('SmallVec::<A>::push'):
+                    v = T.operand(t['args'][1])
+                    acts.append(('push', v[1] if v[0] == 'int' else '?'))
+                elif c.endswith('SmallVec::<A>::extend_from_slice'):
+                    v = T.operand(t['args'][1])
+                    seg = v[0] == 'call' and v[1].endswith('::as_bytes') and any(n[0] == 'call' and n[1].endswith('Iterator>::next') for n in terms.walk(v))
+                    acts.append(('extend', 'segment' if seg else '?'))
+                elif 'SmallVec' in c and not c.endswith('Deref>::deref'):
+                    acts.append(('other', c.rsplit('::', 1)[-1]))
+            want = [('push', 0x2f), ('extend', 'segment')] if pos else [('extend', 'segment')]
+            if pos is None:
+                run.violation('join|index', f'{P.where(b)} {fn}: an iteration of the joining loop does not test whether the segment is the first one')
+            elif acts != want:
+                run.violation(f'join|{"later" if pos else "first"}', f'{P.where(b)} {fn}: for {"a later" if pos else "the first"} segment an iteration of the joining loop does {acts}; joining with "/" needs {want}')
+            continue
+        first = False
+        t = b['blocks'][bb]['term']
+        if t['k'] == 'switch' and t['op']['k'] in ('copy', 'move') and t['op']['place']['local'] in gt_locals and not t['op']['place']['proj']:
+            pol = gt_locals[t['op']['place']['local']]
+            vals = [v for v, _ in t['targets']]
+            for v, tg in list(t['targets']) + [(None, t['otherwise'])]:
+                truth = (v != 0) if v is not None else (0 in vals)
+                if tg in blocks:
+                    stack.append((tg, path + (tg,), truth if pol else not truth))
+            continue
+        succs = [t['target']] if t['k'] in ('goto', 'call', 'drop', 'assert') and t.get('target') is not None else ([tg for _, tg in t['targets']] + [t['otherwise']] if t['k'] == 'switch' else [])
+        for tg in succs:
+            if tg in blocks and (tg not in path or tg == header) and len(path) < 60:
+                stack.append((tg, path + (tg,), pos))
+    run.count('join_iteration_paths', npaths)
+    if npaths < 2:
+        run.violation('join|floor', f'{P.where(b)} {fn}: fewer than two iteration paths (first / later segment) found in the joining loop')
 
 
 def main(run):
@@ -52,6 +128,7 @@ def main(run):
     for pr in probs:
         run.violation(f'sequence|{pr[:90]}', f'{P.where(nb) if nb else "path.rs"} NormalizedSegmentsImpl::new: {pr}')
     run.floor('sequence_step_cases', 5, 'abstract cases (stack top x relative) of the normalising step')
+    join_loop(run, P)
     run.floor('path_closure_checks', 20, 'normalize paths whose result language was checked')
     run.floor('kind_checks', 20, 'absolute/relative preservation checks')
     return run.finish('model_checking', {
